@@ -10,7 +10,9 @@
 (*              [k |-> "zext"|"sext"|"trun", w |-> target width, a]        *)
 (*              [k |-> "ite", c, a, b]                                     *)
 (* Result of evaluation: [ok |-> value] or [err |-> token], token one of   *)
-(* "Sort", "DivideByZero", "ExecutorScalar".                               *)
+(* "Sort", "DivideByZero", "ExecutorScalar"; the token "Unspecified" marks  *)
+(* an if-then-else whose condition is not 1 bit wide (the constructors     *)
+(* never build one; the statement gives it no meaning; never judged).      *)
 (*                                                                         *)
 (* Nodes may carry further fields (the harness logs falcon's own bits()    *)
 (* as "w" on every node); Eval and Bits never trust them for inner nodes.  *)
@@ -107,7 +109,8 @@ Eval(e, env) ==
     [] e.k = "ite" ->
          LET c == TLCEval(Eval(e.c, env)) IN
          IF IsErr(c) THEN c
-         ELSE IF c.ok.w = 1 /\ c.ok.v = <<1>> THEN Eval(e.a, env) ELSE Eval(e.b, env)
+         ELSE IF c.ok.w # 1 THEN Err("Unspecified")      \* a condition that is not 1 bit wide: no meaning given
+         ELSE IF c.ok.v = <<1>> THEN Eval(e.a, env) ELSE Eval(e.b, env)
 
 \* Every error some evaluation order (strict or lazy) of e could raise: the property
 \* fixes the kind of error per cause, not which of several causes is reported first.
@@ -131,6 +134,8 @@ ErrSet(e, env) ==
 EvalAllows(e, env, res) ==
   LET r == Eval(e, env) IN
   IF IsOk(r) THEN res = r
+  ELSE IF r.err = "Unspecified" THEN TRUE           \* outside the property (only reachable by
+                                                    \* building an if-then-else around the constructors)
   ELSE IsErr(res) /\ res.err \in ErrSet(e, env)
 
 (* ---------------------------- constructors ----------------------------- *)
